@@ -259,7 +259,13 @@ func (x *Exec) inline(fn *cfront.Node, args []Val, st *State, call *cfront.Node)
 	if x.Mode == Paths {
 		st.Trace = append(st.Trace, Event{Kind: "enter", Node: call, Name: fn.Name, Args: args})
 	}
+	savedGotos := x.gotos
+	x.gotos = nil
 	fl := x.execStmt(body, []*State{st})
+	if len(x.gotos) > 0 {
+		x.problem(call, "goto in %s to a label that is not ahead in an enclosing block", fn.Name)
+	}
+	x.gotos = savedGotos
 	x.stack = x.stack[:len(x.stack)-1]
 	x.depth--
 	var out []res
